@@ -16,7 +16,15 @@ RULE = ("random Scores with k, m >= 0 easy samples, both classes non-empty, 4 co
 TRUSTED = ["equality of thresholds and AUC between the two objects is checked on the implementation (exact on stream E, "
            "few ulp / 1e-12 otherwise); the Coq theorem covers the confusion matrices (Props/C09.v)"]
 ASSUMPTIONS = ["both classes non-empty", "finite scores of moderate magnitude"]
-TIES = []
+def _ties():
+    from harness.translate import scores_tr
+    # C09 has no code of its own: it relates cm, threshold setting and auc on two objects
+    return [{"name": "scores.cm", "translate": scores_tr.translate_cm, "gen_file": "Gen_cm.v", "tie_file": "Tie_cm.v"},
+            {"name": "scores.threshold-setting", "translate": scores_tr.translate_thresholds, "gen_file": "Gen_thr.v", "tie_file": "Tie_thr.v"},
+            {"name": "scores.auc", "translate": scores_tr.translate_auc, "gen_file": "Gen_auc.v", "tie_file": "Tie_auc.v"}]
+
+
+TIES = _ties()
 
 
 def gen_cases(rng, tier):
